@@ -657,6 +657,14 @@ pub mod sampled {
         }
         let again = b.finish();
         assert!(view(&again) == sorted(accepted));
+        // ... and a recycled builder can still take a UUID type it has never seen: its next raw type id must not collide with a
+        // type it kept (whatever the order in which the kept types were first used); only the format limits may refuse it
+        let mut b2 = again.recycle();
+        let fresh = Uuid::from_bytes([0x42, 0x11, 0x22, 0x33, 0x44, 0x55, 0x66, 0x77, 0x88, 0x99, 0xaa, 0xbb, 0xcc, 0xdd, 0xee, 0x42]);
+        match b2.add_item(TypeId::Uuid(fresh), 0, &[]) {
+            Err(crate::snap::BuilderError::DuplicateKey) => panic!("recycled builder: raw type id of a new UUID type collides with a kept one"),
+            _ => {}
+        }
     }
 
     /// C09: delta(A, B) applied to A is B (items, data, crc), also through both wire forms, without warnings; the
